@@ -139,10 +139,13 @@ def gamma2(tier, seed):
         ("or_of_and", lambda t: {"$or": [{"$and": ["mov", "add"]}, "sub"], "times": t}, {"$or": [{"$and": ["mov", "add"]}, "sub"]}),
     ]
     # a sequence whose first and last children are themselves groups (the quantifier must bind the WHOLE sequence)
+    # a repeated group whose only member is itself repeated: counters nest, they do not multiply out to one range
+    nested = ("and1_inner_times", lambda t: {"$and": [{"mov": {"times": 2}}], "times": t}, {"$and": [{"mov": {"times": 2}}]})
     and_of_ors = ("and_of_ors", lambda t: {"$and": [{"$or": ["mov", "sub"]}, {"$or": ["add", "xor"]}], "times": t}, {"$and": [{"$or": ["mov", "sub"]}, {"$or": ["add", "xor"]}]})
     if tier == "quick":
         bodies = bodies[:9]
     bodies.append(and_of_ors)
+    bodies.append(nested)
     for kind, mk, plain in bodies:
         feat = f"times_{kind}"
         for n in ints:
@@ -276,6 +279,11 @@ def gamma3(tier, seed):
                 out.append({"id": f"g3/op/{op}/{width}/{tail}", "doc": doc_of(pat, fm, fm), "feature": f"op_{op[1:]}"})
             pat = [{"mov": ["c", {op: kids}]}, "d"]
             out.append({"id": f"g3/op/{op}/{width}/after", "doc": doc_of(pat, fm, fm), "feature": f"op_{op[1:]}"})
+    # alternatives whose names contain one another, under every full-match setting (no alternative is "unreachable")
+    for mf, of in FLAGS:
+        out.append({"id": f"g3/ins/or_contained_names/{ftag(mf,of)}", "doc": doc_of(["a", {"$or": ["b", "ab", "abc"]}, "d"], mf, of), "feature": "ins_or_contained_names"})
+        out.append({"id": f"g3/op/or_contained_names/{ftag(mf,of)}", "doc": doc_of([{"mov": [{"$or": ["x", "xy"]}, "c"]}, "d"], mf, of), "feature": "op_or_contained_names"})
+    out.append({"id": "g3/ins/anyorder_or_contained_names", "doc": doc_of(["a", {"$and_any_order": [{"$or": ["b", "bc"]}, "e"]}, "d"], True, False), "feature": "ins_or_contained_names"})
     # a repeated sequence whose first AND last children are operator groups (instruction and operand level)
     AO = {"$and": [{"$or": ["b", "c"]}, {"$or": ["e", "f"]}], "times": 2}
     out.append({"id": "g3/ins/and_of_ors_times", "doc": doc_of(["a", AO, "d"]), "feature": "ins_and_of_groups_repeated"})
@@ -348,11 +356,12 @@ def gamma4(tier, seed):
         ("not_times", {"mov": {"times": 2}}),
         ("anyorder", {"$and_any_order": ["mov", "add"]}),
         # a RANGED repetition inside a sequence in the argument: every length of the run counts, not only the shortest
+        ("or_times", {"$or": ["mov", "add"], "times": 2}),
         ("and_ranged", {"$and": [{"mov": {"times": {"min": 1, "max": 3}}}, "add"]}),
         ("or_ranged_in_and", {"$and": [{"$or": ["mov", "sub"], "times": {"min": 1, "max": 2}}, "add"]}),
     ]
     if tier == "quick":
-        args = args[:5] + [a for a in args if a[0] in ("notnot_and", "and_ranged")]
+        args = args[:5] + [a for a in args if a[0] in ("notnot_and", "and_ranged", "or_times")]
     for an, X in args:
         N = {"$not": [X]}
         if an in ("and_ranged", "or_ranged_in_and") and tier == "quick":
@@ -584,6 +593,8 @@ def gamma5(tier, seed):
     # the order of the keys in the $deref mapping is irrelevant, also when the fields DEFINE captures
     T("reg/first_in_deref_key_order", [{"mov": [{"$deref": {"constant_multiplier": 4, "register_multiplier": "&indreg.64", "main_reg": "&genreg.64"}}]}, {"add": ["&genreg.32", "&indreg.16"]}], ["&genreg", "&indreg"], {"&genreg": list("abcd"), "&indreg": ["s", "d"]}, "cap_register_in_deref_key_order", lemmas=("AEM",), domain="att_mem_regs")
     T("reg/first_in_deref_key_order2", [{"mov": [{"$deref": {"register_multiplier": "&indreg.64", "main_reg": "&genreg.64", "constant_multiplier": 4}}]}, {"add": ["&indreg.16"]}, {"sub": ["&genreg.32"]}], ["&genreg", "&indreg"], {"&genreg": list("abcd"), "&indreg": ["s", "d"]}, "cap_register_in_deref_key_order", lemmas=("AEM",), domain="att_mem_regs")
+    T("reg/first_in_deref_offset_capture", [{"lea": [{"$deref": {"main_reg": "&genreg.64", "register_multiplier": "&indreg.64", "constant_multiplier": 8, "constant_offset": "&off"}}]}, {"mov": ["&off", "&indreg.32"]}, {"push": ["&genreg.16"]}], ["&genreg", "&indreg", "&off"], {"&genreg": ["a", "b"], "&indreg": ["s", "d"], "&off": ["0x10", "-0x8"]}, "cap_in_deref_offset", lemmas=("AEM",), domain="att_mem_regs")
+    T("reg/after_index_only_deref", [{"mov": [{"$deref": {"main_reg": "%bx", "register_multiplier": "%si", "constant_offset": "0x10"}}]}, {"push": ["&genreg.16"]}, {"pop": ["&genreg.16"]}], ["&genreg"], {"&genreg": list("abcd")}, "cap_after_index_only_deref", lemmas=("AEM",), domain="att_mem_regs")
     T("reg/first_in_deref", [{"mov": [{"$deref": {"main_reg": "&genreg.64", "register_multiplier": "&indreg.64", "constant_multiplier": 4}}]}, {"add": ["&genreg.32", "&indreg.16"]}], ["&genreg", "&indreg"], {"&genreg": list("abcd"), "&indreg": ["s", "d"]}, "cap_register_in_deref", lemmas=("AEM",), domain="att_mem_regs")
     return out
 
@@ -594,7 +605,7 @@ def gamma6(tier, seed):
     L = ("AEM", "EA", "NE", "VAL")
     regs = [("%rax", "%rbx"), ("rax", "rbx"), ("%rbp", "r12")]
     scales = [1, 2, 4, 8, "4", "1"] if tier == "thorough" else [1, 4, "8"]
-    disps = ["0x8", "8", "-0x8", "0x0", 0, 16, "0x7f", "10"] if tier == "thorough" else ["0x8", "8", "-0x8", "0x0", 0]
+    disps = ["0x8", "8", "-0x8", "0x0", 0, 16, "0x7f", "10"] if tier == "thorough" else ["0x8", "8", "-0x8", "0x0", 0, 10, 16]
     n = 0
 
     def add(fields, pos, tag):
